@@ -30,6 +30,18 @@ CHECKS = {
     'C02': sched('the outcome-agreement oracle (future/result()/successful()/killed_msg()/exception() agree, one terminal '
                  'listener notification, cleanups once, closed, step_until_terminated() returned; future pending while '
                  'live, sampled after every choice).', 'DESIGN.md 3 C02'),
+    'C03': ('fault-enumerator',
+            'exhaustive fault-point enumeration (every hook / user function x occurrence x before|after super) over every '
+            'single-request placement scenario on the real Process',
+            'For the plain run and for pause / kill / pause+kill / pause+play issued after every tick count, an un-faulted '
+            'census counts every fault site (steps, scheduled callback, output hooks, all on_* hooks, on_entering/entered/'
+            'exiting, pause/play hooks, state enter/exit, init, listener methods); every (site, occurrence, before/after '
+            'super) is then run with exactly that fault and judged by site class: constructor raises / listener changes '
+            'nothing / pause-play hook reported to the requester and process still controllable / otherwise EXCEPTED with '
+            'that exception, future raising it, closed, stepping returned, no loop exception context.',
+            'One fault per run; scenarios issue their requests at fixed tick counts (every count is covered); two narrow '
+            'known findings (on_terminated / on_close raising after super) are listed in KNOWN_FINDINGS.txt.',
+            'DESIGN.md 3 C03'),
     'C04': sched('the kill oracle (never raises, never lost, no step starts after it, result True iff KILLED, text '
                  'recorded, future().cancel() equivalent, unkillability probe from every live end configuration).',
                  'DESIGN.md 3 C04'),
@@ -81,6 +93,16 @@ CHECKS = {
             'pv/refports.py.',
             'Trusts the reference model; a fresh class per run; mappings as values and paths through leaf ports are '
             'outside the alphabet.', 'DESIGN.md 3 C12'),
+    'C14': ('history-bfs',
+            'explicit-state breadth-first search over persister operation histories with canonical-state deduplication, '
+            'both persisters in lock-step against a dictionary model',
+            'BFS over histories of save / advance-the-live-process / load / delete / delete-process / listings for two '
+            'live processes (a work chain mutating ctx objects in place and a waiting process), tags and integer, UUID '
+            'and string ids chosen to be string prefixes of each other; after every operation InMemoryPersister and '
+            'PicklePersister (fresh /dev/shm directory per history) must agree with a dict model and with each other; '
+            'loaded bundles are compared with the snapshot taken at save time although the process advanced since.',
+            'Canonical state = stored key -> snapshot version + live progress (only used to prune); depth bound and '
+            'closure are reported in the evidence; no crash consistency of pickle files is claimed.', 'DESIGN.md 3 C14'),
     'C15': ('input-enumerator',
             'bounded-exhaustive enumeration of include/exclude rule sets over colliding-name port trees on the real '
             'expose_inputs/expose_outputs/absorb, against a path-set selection model',
@@ -154,6 +176,13 @@ def main() -> None:
              'serves_properties': [p for p, c in sorted(CHECKS.items()) if c[0] == 'schedule-explorer'],
              'kind_free_text': 'stateless model checker (prefix-replay DFS, deviation budgets) over the implementation '
                                'running on a deterministic hand-stepped asyncio loop'},
+            {'name': 'fault-enumerator', 'path': 'pv/props/c03.py',
+             'serves_properties': [p for p, c in sorted(CHECKS.items()) if c[0] == 'fault-enumerator'],
+             'kind_free_text': 'exhaustive single-fault injection at every reachable hook occurrence of every scenario'},
+            {'name': 'history-bfs', 'path': 'pv/props/c14.py pv/props/c17.py',
+             'serves_properties': [p for p, c in sorted(CHECKS.items()) if c[0] == 'history-bfs'],
+             'kind_free_text': 'explicit-state BFS over operation histories replayed on fresh real objects, canonical-state '
+                               'dedup, oracle after every operation'},
             {'name': 'input-enumerator', 'path': 'pv/props/*.py pv/ckpt.py',
              'serves_properties': [p for p, c in sorted(CHECKS.items()) if c[0] == 'input-enumerator'],
              'kind_free_text': 'bounded-exhaustive enumeration of programs / specs / inputs / crash points, each executed '
